@@ -13,6 +13,8 @@ MANIFEST_ENTRY = {
     "note": "Bound: existing shares subset of {0,1}; named shares subset of {0,1,2}; per-share test vectors/write vectors are opaque values handed through to the share objects (their semantics is C23). Under the precondition that no share-level writev raises (C23: offset+len <= MAX_SIZE), no exception can interrupt the write phase. MutableShareFile construction/creation is a stub returning the share object for that path.",
     "technique": "contract-based deductive verification (pyvc VCs + z3) with call-log ghost state; request shape bounded",
 }
+MANIFEST_ENTRY["text"] += " Bounded end-to-end stand-in (run-time contract, never counted as proved): contracts/grid_http.py drives the real StorageServer through seeded histories (allocate, chunked/overlapping/conflicting/overrunning writes, abort, 31-minute timeout, reads, leases, read-test-write with failing tests, truncation, deletion, wrong write enabler) and compares it after every operation with a plain byte-array model: visible shares, bytes, space reserved for uploads in progress, mutable slots."
+MANIFEST_ENTRY["technique"] = MANIFEST_ENTRY.get("technique", "contract-based deductive verification: pre/postconditions on the real functions, VCs generated from the AST, discharged by z3/cvc5") + "; plus a bounded run-time contract: the real StorageServer against a byte-array model over seeded histories (stand-in, labelled bounded)"
 EXPLANATION = "Protocol-level contract over the real StorageServer code with share objects abstracted by their contracts."
 TRUSTED = ["timing_safe_compare(a,b) <=> a == b", "os.listdir/os.path.isdir report exactly the modelled share files (plus one non-numeric junk name)"]
 ASSUMPTIONS = ["termination not proved", "share-level writev does not raise (valid request, see C23)"]
@@ -256,6 +258,11 @@ class CheckWriteEnabler(Spec):
 
     def same_result(self, n, s):
         return True
+
+
+def extra_checks(rep, tier):
+    from contracts import grid_http
+    grid_http.grid_check(rep, tier, "C24")
 
 
 def contracts(tier):
